@@ -34,7 +34,8 @@ static Fields gen(Tape &t) {
   for (int i = 0; i < T; i++) {
     int n = t.range(3, 10);
     std::string ops;
-    for (int j = 0; j < n; j++) { ops += (char)('a' + t.below(13)); ops += (char)('0' + t.below(4)); }  // op + yield/spin amount
+    // op + yield/spin amount + allocation-failure position for the thread's private memory manager (0 = default manager, no fault)
+    for (int j = 0; j < n; j++) { ops += (char)('a' + t.below(13)); ops += (char)('0' + t.below(4)); ops += (char)('0' + (t.chance(1, 2) ? 0 : t.below(8))); }
     f.set("ops." + std::to_string(i), ops);
   }
   f.seti("wide", t.below(2));
@@ -63,9 +64,12 @@ template <class A> struct Shared {
 
 template <class A> static std::string text_of(const typename A::Uri &u) { std::string s; to_string<A>(u, &s); return s; }
 
-// one operation; every shared argument is passed as const
-template <class A> static std::string do_op(const Shared<A> &S, char op) {
+// one operation; every shared argument is passed as const. fault > 0: the call goes through the thread's own
+// memory manager `mm`, whose fault-th request fails once (fault == 7: no failure, custom manager only).
+template <class A> static std::string do_op_mm(const Shared<A> &S, char op, LedgerMM *mm, int fault);
+template <class A> static std::string do_op(const Shared<A> &S, char op, LedgerMM *mm = nullptr, int fault = 0) {
   using Ch = typename A::Ch;
+  if (mm && fault > 0 && strchr("abijlm", op)) return do_op_mm<A>(S, op, mm, fault);
   switch (op) {
     case 'a': { typename A::Uri d; int rc = A::AddBaseUri(&d, &S.ref, &S.base); std::string r = std::to_string(rc) + ":" + (rc == 0 ? text_of<A>(d) : ""); A::FreeUriMembers(&d); return r; }
     case 'b': { typename A::Uri d; int rc = A::RemoveBaseUri(&d, &S.src, &S.base, URI_FALSE); std::string r = std::to_string(rc) + ":" + (rc == 0 ? text_of<A>(d) : ""); A::FreeUriMembers(&d); return r; }
@@ -99,15 +103,55 @@ template <class A> static std::string do_op(const Shared<A> &S, char op) {
   }
 }
 
+template <class A> static std::string do_op_mm(const Shared<A> &S, char op, LedgerMM *mm, int fault) {
+  using Ch = typename A::Ch;
+  mm->reset_counts(); mm->reset_plan();
+  if (fault < 7) mm->fail_at = (uint64_t)fault;
+  typename A::Uri d;
+  memset(&d, 0, sizeof d);
+  int rc = 0;
+  std::string r;
+  std::basic_string<Ch> copy;
+  switch (op) {
+    case 'a': rc = A::AddBaseUriExMm(&d, &S.ref, &S.base, URI_RESOLVE_STRICTLY, &mm->mm); break;
+    case 'b': rc = A::RemoveBaseUriMm(&d, &S.src, &S.base, URI_FALSE, &mm->mm); break;
+    case 'l': rc = A::AddBaseUriExMm(&d, &S.src, &S.base, URI_RESOLVE_IDENTICAL_SCHEME_COMPAT, &mm->mm); break;
+    case 'm': rc = A::RemoveBaseUriMm(&d, &S.base, &S.src, URI_TRUE, &mm->mm); break;
+    case 'i': case 'j': {
+      const Ch *ep;
+      copy = op == 'i' ? S.srcT : S.refT;
+      rc = A::ParseSingleUriExMm(&d, copy.data(), copy.data() + copy.size(), &ep, &mm->mm);
+      if (rc == 0) rc = op == 'i' ? A::NormalizeSyntaxExMm(&d, (unsigned)-1, &mm->mm) : A::MakeOwnerMm(&d, &mm->mm);
+      break;
+    }
+    default: break;
+  }
+  r = std::to_string(rc) + ":" + (rc == 0 ? text_of<A>(d) : "");
+  A::FreeUriMembersMm(&d, &mm->mm);
+  mm->reset_plan();
+  if (mm->outstanding() != 0) r += "|LEAK:" + std::to_string(mm->outstanding());
+  if (mm->bad_free) r += "|BADFREE:" + mm->bad_free_what;
+  return r;
+}
+
 template <class A> static Verdict run_workload(const Fields &f, int *sharedOps) {
   Shared<A> S;
   if (!S.init(f)) return Verdict::discard();
   int T = (int)f.geti("threads");
   std::vector<std::string> lists((size_t)T);
   for (int i = 0; i < T; i++) lists[(size_t)i] = f.get("ops." + std::to_string(i));
-  // expected results, single-threaded
-  std::map<char, std::string> expect;
-  for (char c = 'a'; c <= 'm'; c++) expect[c] = do_op<A>(S, c);
+  // expected results, single-threaded (per op and fault position)
+  std::map<std::string, std::string> expect;
+  {
+    LedgerMM mm0;
+    for (auto &l : lists) for (size_t j = 0; j + 2 < l.size() + 0; j += 3) {
+      std::string key = {l[j], l[j + 2]};
+      if (expect.count(key)) continue;
+      expect[key] = do_op<A>(S, l[j], &mm0, l[j + 2] - '0');
+      if (expect[key].find("|LEAK") != std::string::npos || expect[key].find("|BADFREE") != std::string::npos)
+        return Verdict::fail(std::string(A::name()) + ": op '" + l[j] + "' with allocation " + l[j + 2] + " failing: " + esc(expect[key]) + " (a call on a private object released or kept memory that is not its own)");
+    }
+  }
   std::string frozenBase = freeze<A>(S.base), frozenSrc = freeze<A>(S.src), frozenRef = freeze<A>(S.ref);
   std::atomic<int> ready{0};
   std::atomic<bool> go{false};
@@ -115,14 +159,16 @@ template <class A> static Verdict run_workload(const Fields &f, int *sharedOps) 
   std::vector<std::thread> th;
   for (int i = 0; i < T; i++) {
     th.emplace_back([&, i]() {
+      LedgerMM mm;  // thread-private manager
       ready.fetch_add(1);
       while (!go.load(std::memory_order_acquire)) {}
       const std::string &ops = lists[(size_t)i];
       for (int rep = 0; rep < 3; rep++) {
-        for (size_t j = 0; j + 1 < ops.size(); j += 2) {
-          std::string r = do_op<A>(S, ops[j]);
-          if (r != expect[ops[j]] && errs[(size_t)i].empty())
-            errs[(size_t)i] = std::string("thread ") + std::to_string(i) + " op '" + ops[j] + "': got '" + esc(r) + "', alone it returns '" + esc(expect[ops[j]]) + "'";
+        for (size_t j = 0; j + 2 < ops.size() + 0; j += 3) {
+          std::string r = do_op<A>(S, ops[j], &mm, ops[j + 2] - '0');
+          const std::string &want = expect.at(std::string{ops[j], ops[j + 2]});
+          if (r != want && errs[(size_t)i].empty())
+            errs[(size_t)i] = std::string("thread ") + std::to_string(i) + " op '" + ops[j] + "' fault " + ops[j + 2] + ": got '" + esc(r) + "', alone it returns '" + esc(want) + "'";
           int y = ops[j + 1] - '0';
           if (y == 1) sched_yield();
           else for (volatile int s = 0; s < y * 50; s++) {}
@@ -135,7 +181,7 @@ template <class A> static Verdict run_workload(const Fields &f, int *sharedOps) 
   for (auto &t : th) t.join();
   for (auto &e : errs) if (!e.empty()) return Verdict::fail(std::string(A::name()) + ": " + e);
   VF_REQUIRE(freeze<A>(S.base) == frozenBase && freeze<A>(S.src) == frozenSrc && freeze<A>(S.ref) == frozenRef, "%s: a shared read-only URI was modified", A::name());
-  for (auto &l : lists) for (size_t j = 0; j + 1 < l.size(); j += 2) if (strchr("abcdefghlm", l[j])) (*sharedOps)++;
+  for (auto &l : lists) for (size_t j = 0; j + 2 < l.size() + 0; j += 3) { if (strchr("abcdefghlm", l[j])) (*sharedOps)++; if (l[j + 2] != '0' && strchr("abijlm", l[j])) stats().hit("ops_with_private_manager_and_fault"); }
   stats().sub_evaluations += 3;
   return Verdict::pass();
 }
